@@ -189,15 +189,21 @@ class Arr:
     np=True: numpy 1-D/2-D semantics (elementwise arithmetic); np=False: Python list semantics.
     cols: None for 1-D, else the concrete number of columns (fn returns a Vec of that size).
     """
-    __slots__ = ('n', 'fn', 'np', 'cols', 'view', 'tag')
+    __slots__ = ('n', 'fn', 'np', 'cols', 'view', 'tag', 'prov')
 
-    def __init__(self, n, fn, np=True, cols=None, view=False, tag=None):
+    def __init__(self, n, fn, np=True, cols=None, view=False, tag=None, prov=None):
         self.n = n
         self.fn = fn
         self.np = np
         self.cols = cols
         self.view = view
         self.tag = tag
+        # provenance (how this array was built from others): used to rewrite sums structurally.
+        # ('const', v) | ('concat', A, B) | ('delete', A, j) | ('store', A, i, v) | ('slice', A, off) | ('rowmap', g, A)
+        self.prov = prov
+
+    def snap(self):
+        return Arr(self.n, self.fn, np=self.np, cols=self.cols, tag=self.tag, prov=self.prov)
 
     def __repr__(self):
         return f'Arr<n={self.n},np={self.np},cols={self.cols}>'
